@@ -6,6 +6,7 @@ package main
 
 import (
 	"context"
+	"crypto/x509"
 	"errors"
 	"fmt"
 	"strings"
@@ -42,6 +43,8 @@ func c05Result(k int) revresult.Result {
 	return revresult.Result(7)
 }
 
+var c05TSARoot, c05TSALeaf *Cert
+
 type c05Env struct {
 	chain  Chain
 	env    map[string][]byte // key: format|scheme
@@ -64,6 +67,7 @@ type c05Case struct {
 	SrvErr bool   `json:"server_errors"`
 	Step   int    `json:"history_step"` // > 0: n-th verification on one and the same verifier instance (the verdict must not depend on earlier calls)
 	hist   *c05Hist
+	Token  bool   `json:"timestamp_token"` // the envelope carries a valid RFC 3161 countersignature (policy lists no tsa store)
 	Anchor int    `json:"trust_anchor"` // which certificate of the chain the trust store holds: 0 root, 1 middle, 2 leaf
 	// observation
 	Calls    []string `json:"obs_calls"`
@@ -83,7 +87,7 @@ func runC05(a *Args) error {
 	rng := NewRng(a.Seed)
 	prelude := "From NV Require Import Base C05_Model.\nOpen Scope string_scope.\n"
 	w := NewCaseWriter(a, "C05", prelude, "case", "run")
-	w.Rule = "every result vector over {OK,NonRevokable,Unknown,Revoked}^n (n=1..4 exhaustively; thorough adds n=5,6 exhaustively and random n<=12 with out-of-range result values) x action x validator interface x scheme x envelope format x position of the trust anchor in the chain (root / middle / leaf held by the listed store), plus validator errors, short vectors, the library-default validator, and histories of 2-4 verifications on one verifier instance while the validator's answer changes; run through the real verifier.Verify. non-trivial = revocation not skipped and (some certificate not OK, or a validator error); distinct = distinct (vector, action, validators, scheme, format, error) tuples"
+	w.Rule = "every result vector over {OK,NonRevokable,Unknown,Revoked}^n (n=1..4 exhaustively; thorough adds n=5,6 exhaustively and random n<=12 with out-of-range result values) x action x validator interface x scheme x envelope format x presence of a timestamp countersignature in the unsigned attributes x position of the trust anchor in the chain (root / middle / leaf held by the listed store), plus validator errors, short vectors, the library-default validator, and histories of 2-4 verifications on one verifier instance while the validator's answer changes; run through the real verifier.Verify. non-trivial = revocation not skipped and (some certificate not OK, or a validator error); distinct = distinct (vector, action, validators, scheme, format, error) tuples"
 	w.Assumptions = []string{
 		"the revocation validator returns one result per certificate (longer vectors index out of range in revocationFinalResult; outside the validator contract)",
 		"result classes are recognised from the error text of the revocation ValidationResult (\"is revoked\", \"revocation status is unknown\", \"unable to check revocation status\")",
@@ -93,6 +97,8 @@ func runC05(a *Args) error {
 	if a.Tier == "thorough" {
 		maxN = 12
 	}
+	c05TSARoot = Mint(CertSpec{Subject: Name("c05 tsa root"), NotBefore: now.Add(-400 * time.Hour), NotAfter: now.Add(400 * time.Hour), IsCA: true}, nil)
+	c05TSALeaf = Mint(CertSpec{Subject: Name("c05 tsa leaf"), NotBefore: now.Add(-400 * time.Hour), NotAfter: now.Add(400 * time.Hour), TSA: true}, c05TSARoot)
 	envs := map[int]*c05Env{}
 	getEnv := func(n int) *c05Env {
 		if e, ok := envs[n]; ok {
@@ -108,6 +114,16 @@ func runC05(a *Args) error {
 					panic(err)
 				}
 				e.env[f+"|"+string(sc)] = b
+				// the same envelope with a genuine timestamp countersignature over its signature value in the
+				// unsigned attributes: it must not change what the revocation validator is asked
+				if content, err := CoreVerify(f, b); err == nil {
+					tok := makeToken(content.SignerInfo.Signature, now.Add(-30*time.Minute), c05TSALeaf, []*x509.Certificate{c05TSARoot.C})
+					if b2, err := attachToken(f, b, tok); err == nil {
+						if _, err := CoreVerify(f, b2); err == nil {
+							e.env[f+"|"+string(sc)+"|tok"] = b2
+						}
+					}
+				}
 			}
 		}
 		e.store = NewMockStore()
@@ -211,7 +227,15 @@ func runC05(a *Args) error {
 				c.hist.v, c.hist.script, c.hist.calls = nv, script, calls
 			}
 		}
-		outcome, verr2 := v.Verify(context.Background(), e.desc, e.env[c.Format+"|"+string(scheme)], notation.VerifierVerifyOptions{ArtifactReference: TestRef, SignatureMediaType: c.Format})
+		envBytes := e.env[c.Format+"|"+string(scheme)]
+		if c.Token {
+			if b, ok := e.env[c.Format+"|"+string(scheme)+"|tok"]; ok {
+				envBytes = b
+			} else {
+				c.Token = false
+			}
+		}
+		outcome, verr2 := v.Verify(context.Background(), e.desc, envBytes, notation.VerifierVerifyOptions{ArtifactReference: TestRef, SignatureMediaType: c.Format})
 		// observation
 		var callTerms []string
 		for _, k := range *calls {
@@ -253,10 +277,11 @@ func runC05(a *Args) error {
 		obs := CApp("mk_obs", CList(callTerms), resTerm, CBool(c.Rejected))
 		term := CApp("mk_case", CN(my), in, obs)
 		nontriv := c.Action != "Skip" && (c.VErr || hasNonOK(c.Vec))
-		key := fmt.Sprintf("%v|%v|%v|%v|%v|%v|%v|%v|%v", c.Vec, c.Action, c.Val, c.SA, c.Format, c.VErr, c.Level, c.Anchor, c.Step)
+		key := fmt.Sprintf("%v|%v|%v|%v|%v|%v|%v|%v|%v|%v", c.Vec, c.Action, c.Val, c.SA, c.Format, c.VErr, c.Level, c.Anchor, c.Step, c.Token)
 		w.Add(my, term, c, key, nontriv)
 		w.Count("chain_len", fmt.Sprint(c.N))
 		w.Count("trust_anchor", []string{"root", "middle", "leaf"}[c.Anchor])
+		w.Count("timestamp_token", fmt.Sprint(c.Token))
 		w.Count("action", c.Action)
 		w.Count("validators", fmt.Sprint(c.Val))
 		w.Count("obs_result", strings.SplitN(c.Result, ":", 2)[0])
@@ -389,6 +414,16 @@ func runC05(a *Args) error {
 			}
 			runCase(&c)
 		}
+	}
+	// 7. envelopes carrying a timestamp countersignature (unsigned, attacker-controllable attribute) under a policy
+	// without tsa store: the validator must still be asked with a zero signing time for notary.x509, and with
+	// the authentic signing time (not the token's) for signingAuthority; every vector for n=1..3
+	for n := 1; n <= 3; n++ {
+		vectors(n, 4, func(v []int) {
+			for _, sa := range []bool{false, true} {
+				runCase(&c05Case{N: n, Format: Pick(rng, formats), SA: sa, Action: Pick(rng, []string{"Enforce", "Log"}), Level: Pick(rng, levels), Val: 1 + rng.Intn(3), Vec: v, Method: rng.Intn(4), Anchor: rng.Intn(3), Token: true})
+			}
+		})
 	}
 	return w.Close()
 }
